@@ -19,7 +19,10 @@ fn profile() -> Profile {
     p.max_stmts = 6;
     p.max_depth = 2;
     p.err = 3;
-    p.names = &["a", "b", "c", "f", "g", "x"];
+    // few names (collisions between inputs), among them the locals of the built-in helper closures: a helper that
+    // binds them in the caller's scope overwrites the REPL's persistent variables
+    p.names = &["a", "b", "f", "x", "default", "iterator", "res", "value", "func", "iter", "acc"];
+    p.iterators = 40;
     // let, fn, effect-expr, if, ifset, match, while, for, loop, destruct, block, typed-let-stm
     p.w = [40, 18, 16, 3, 1, 2, 2, 3, 1, 6, 2, 6];
     p.closures = 30;
